@@ -198,3 +198,20 @@ package font
 //@   requires [font] face.Font != nil
 //@   ensures [cache-invalidated] forall(k, 0, len(face.extentsCache), !face.extentsCache[k].valid)
 //@   modifies unspecified
+//
+// newLayout (C09, "sanitize* helpers"): after it, the required feature index of every language system of every script
+// is the 0xFFFF sentinel or a valid index into the feature list (the shaper indexes Features with it).
+//@ spec langSysOK(ls tables.LangSys, n int) bool = ls.RequiredFeatureIndex == 0xFFFF || int(ls.RequiredFeatureIndex) < n
+//@ func newLayout C09c
+//@   mode int
+//@   requires [records] len(table.ScriptList.Records) >= len(table.ScriptList.Scripts) && len(table.FeatureList.Records) >= len(table.FeatureList.Features)
+//@   ensures [required-features-sanitized] forall(i, 0, len(result.Scripts), forall(j, 0, len(result.Scripts[i].LangSys), langSysOK(result.Scripts[i].LangSys[j], len(result.Features))))
+//@   ensures [default-sanitized] forall(i, 0, len(result.Scripts), implies(result.Scripts[i].DefaultLangSys != nil, langSysOK(*result.Scripts[i].DefaultLangSys, len(result.Features))))
+//@   modifies unspecified
+//@   loop 1 invariant [shape] len(out.Scripts) == len(table.ScriptList.Scripts) && len(out.Features) == fCount && fresh(out.Scripts) && fresh(out.Features) && fCount == len(table.FeatureList.Features)
+//@   loop 1 invariant [done] forall(i, 0, rangeindex+1, forall(j, 0, len(out.Scripts[i].LangSys), langSysOK(out.Scripts[i].LangSys[j], fCount)) && implies(out.Scripts[i].DefaultLangSys != nil, langSysOK(*out.Scripts[i].DefaultLangSys, fCount)))
+//@   loop 2 invariant [shape] len(out.Scripts) == len(table.ScriptList.Scripts) && len(out.Features) == fCount && fresh(out.Scripts) && fresh(out.Features) && fCount == len(table.FeatureList.Features)
+//@   loop 2 invariant [done] forall(i, 0, rangeindex1, forall(j, 0, len(out.Scripts[i].LangSys), langSysOK(out.Scripts[i].LangSys[j], fCount)) && implies(out.Scripts[i].DefaultLangSys != nil, langSysOK(*out.Scripts[i].DefaultLangSys, fCount)))
+//@   loop 2 invariant [this-script] forall(j, 0, rangeindex+1, langSysOK(s.LangSys[j], fCount)) && implies(s.DefaultLangSys != nil, langSysOK(*s.DefaultLangSys, fCount))
+//@   loop 3 invariant [shape] len(out.Scripts) == len(table.ScriptList.Scripts) && len(out.Features) == fCount && fresh(out.Scripts) && fresh(out.Features)
+//@   loop 3 invariant [kept] forall(i, 0, len(out.Scripts), forall(j, 0, len(out.Scripts[i].LangSys), langSysOK(out.Scripts[i].LangSys[j], fCount)) && implies(out.Scripts[i].DefaultLangSys != nil, langSysOK(*out.Scripts[i].DefaultLangSys, fCount)))
